@@ -344,6 +344,11 @@ class BootEngine(object):
                               "MachineController.boot raised %s"
                               % type(val).__name__, kind="boot-failed-clean")
                 w.ops[-1] += " -> " + type(val).__name__
+                # an image carrying this call's options went out: the
+                # controller's struct definitions describe it, whether or not
+                # the machine came up
+                if self.cur:
+                    structs = mc.structs
             else:
                 if check and not m.booted:
                     w.violate("MC", "MachineController.boot returned True "
